@@ -14,13 +14,16 @@ from vt.common import SV, SA
 PID = 'C17'
 RULE = ('random pairs/triples of balanced reactions sharing a reactant (same generator as C05), X in (0,0.45], k in (0,1.5], mol/wt and mixed bases, phase-less and phase-tagged; '
         'clauses: (a+b) vs ParallelReaction([a,b]); ((a+b)-b) vs a; k*a, a*k, a/k vs X scaled; +=,-=,*=,/= vs binary forms; copy/neg/backwards/add/sub/copy(basis) return new '
-        'objects with unshared containers and leave operands bit-identical; item.X <-> set.X. non-trivial = both reactions have X>0 and >=3 species; distinct = hash of the case')
+        'objects with unshared containers and leave operands bit-identical; item.X <-> set.X. Coverage additions: boundary conversions (X_a + X_b = 1, X_a = X_b, X = 1 scaled by k <= 1, a null a in '
+        '(a+b)-b), a -= b against a - b for X_a > X_b, a + None / a - None, backwards(reactant, X=), basis setter refused on sets and items (counted), ReactionSystem.X <-> parts, sparse feeds and bare '
+        'SparseVector / ndarray / SparseArray feeds for the comparison. non-trivial = both reactions have X>0 and >=3 species; distinct = hash of the case')
 MIN_NONTRIVIAL = {'quick': 300, 'thorough': 10000}
 ASSUMPTIONS = ['feeds are made large enough that neither side is infeasible (X_a + X_b <= 0.9)']
 
 
 def required(tier):
-    return ['add-vs-parallel', 'sub-inverse', 'scale', 'inplace', 'new-object', 'operands-unchanged', 'set-item-X', 'backwards', 'set-copy', 'reduce', 'sum-of-three', 'basis-setter', 'set+set', 'set-item-inplace']
+    return ['add-vs-parallel', 'sub-inverse', 'scale', 'inplace', 'new-object', 'operands-unchanged', 'set-item-X', 'backwards', 'set-copy', 'reduce', 'sum-of-three', 'basis-setter', 'set+set', 'set-item-inplace',
+            'X:sum-to-one', 'X:equal', 'X:full-scaled', 'sub-inverse:null-a', 'isub-direct', 'backwards:X', 'system-X', 'feed:sparse', 'feed:sv', 'feed:nd', 'feed:sa', 'basis-setter:set-refused']
 
 
 def gen_case(rng):
@@ -48,7 +51,22 @@ def gen_case(rng):
         for d in rx: d['basis'] = rx[0]['basis']
     k = rng.choice([0.5, 1.0, 1.5, 2.0, round(rng.uniform(0.05, 1.5), 4)])
     feed = {i: round(10 ** rng.uniform(1.5, 3), 3) for i in R.IDS}     # every species plentiful
-    return {'rx': rx, 'k': k, 'tagged': tagged, 'phmap': phmap, 'feed': feed}
+    case = {'rx': rx, 'k': k, 'tagged': tagged, 'phmap': phmap, 'feed': feed}
+    # boundary conversions: the pair sums to one / is equal / a is complete or null (the reactant is then fed sparingly so that the co-reactants still suffice)
+    if rng.random() < 0.18:
+        x = round(rng.uniform(0.05, 0.95), 3)
+        xa, xb = rng.choice([(0.5, 0.5), (round(1 - x, 3), x), (x, x), (1.0, 0.0), (0.0, x), (1.0, round(x / 4, 3))])
+        rx[0]['X'], rx[1]['X'] = xa, xb
+        case['bx'] = True; case['k'] = rng.choice([0.5, 1.0, round(rng.uniform(0.05, 1.0), 4)])
+        feed[r] = round(10 ** rng.uniform(-1, 0.3), 4)
+    # arbitrary feeds: species nobody consumes may be absent; the two sides may also be compared on a bare flow array (in the units of the common basis)
+    consumed = {i for d in rx for i, v in d['st'].items() if v < 0}
+    if rng.random() < 0.3:
+        for i in list(feed):
+            if i not in consumed and rng.random() < 0.5: feed[i] = 0.0
+        case['sparse'] = True
+    if len({d['basis'] for d in rx}) == 1 and rng.random() < 0.25: case['feed_kind'] = rng.choice(['sa', 'nd2']) if tagged else rng.choice(['sv', 'nd'])
+    return case
 
 
 def snap(rx):
@@ -87,8 +105,25 @@ def containers_of_sparse(st):
     return out
 
 
-def apply(rx, case, th):
+def apply(rx, case, th, stream=False):
     """apply a reaction object to the common feed; returns flows dict keyed (phase, ID) or ID."""
+    fk = case.get('feed_kind')
+    if fk and not stream:
+        # a bare array of flows (every reaction of the case is on one basis; the numbers are taken in that basis on both sides)
+        ids = th.chemicals.IDs
+        if case['tagged']:
+            arr = np.zeros((2, len(ids)))
+            for i, v in case['feed'].items(): arr[0 if case['phmap'][i] == 'g' else 1, ids.index(i)] = v
+            obj = SA(arr) if fk == 'sa' else arr
+            rx(obj)
+            out = obj.to_array() if fk == 'sa' else obj
+            return {('g' if r == 0 else 'l', ids[j]): out[r, j] for r in range(2) for j in range(len(ids)) if out[r, j]}
+        arr = np.zeros(len(ids))
+        for i, v in case['feed'].items(): arr[ids.index(i)] = v
+        obj = SV(arr) if fk == 'sv' else arr
+        rx(obj)
+        out = obj.to_array() if fk == 'sv' else obj
+        return {ids[j]: out[j] for j in range(len(ids)) if out[j]}
     if case['tagged']:
         s = tmo.MultiStream(None, phases=('g', 'l'), thermo=th)
         for i, v in case['feed'].items(): s.imol[case['phmap'][i], i] = v
@@ -159,6 +194,13 @@ def run_case(case, rec):
                 if lhs is not None and rhs is not None:
                     d = differ(lhs, rhs, scale)
                     rec.check(not d, 'sub-inverse', tg, f'((a+b)-b)(feed) != a(feed): {d[:4]}')
+            elif a.X == 0 and b.X > 0:
+                # boundary: a converts nothing, so (a+b)-b must convert nothing either
+                rec.hit('sub-inverse:null-a')
+                lhs = guarded('sub-inverse', lambda: apply(m, case, th)); rhs = guarded('sub-inverse', lambda: apply(a, case, th))
+                if lhs is not None and rhs is not None:
+                    d = differ(lhs, rhs, scale)
+                    rec.check(not d, 'sub-inverse', f'null-a/{tg}', f'with a.X = 0, ((a+b)-b)(feed) != a(feed) = feed: {d[:4]} (X of the result {m.X!r})')
         # ---- in-place forms
         ip = a.copy(); sb3 = snap(b)
         r = guarded('inplace', lambda: ip.__iadd__(b))
@@ -200,6 +242,14 @@ def run_case(case, rec):
             if lhs is not None and rhs is not None:
                 d = differ(lhs, rhs, scale)
                 rec.check(not d, 'scale', f'{op}/acts/{tg}', f'{op} by {k} acts differently from a with X scaled: {d[:4]}')
+        elif Xexp <= 1.0 and case.get('bx'):
+            # boundary: up to complete conversion (the reactant is fed sparingly in these cases)
+            ref = a.copy(); ref.X = Xexp
+            lhs = guarded('scale', lambda: apply(r, case, th)); rhs = guarded('scale', lambda: apply(ref, case, th))
+            if lhs is not None and rhs is not None:
+                rec.hit('X:full-scaled')
+                d = differ(lhs, rhs, scale)
+                rec.check(not d, 'scale', f'{op}/acts-near-complete/{tg}', f'{op} by {k} acts differently from a with X scaled to {Xexp}: {d[:4]}')
     for op, fn, Xexp in (('imul', lambda x: x.__imul__(k), a.X * k), ('itruediv', lambda x: x.__itruediv__(k), a.X / k)):
         ip = a.copy()
         r = guarded('inplace', lambda: fn(ip))
@@ -305,7 +355,7 @@ def run_case(case, rec):
         rec.hit('basis-setter')
         unchanged('basis-setter', (a,), (sa7,))
         rec.check(not (containers(rb) & containers(a)), 'new-object', f'basis-setter/shared-container/{tg}', 're-based copy shares stoichiometry containers with the original')
-        lhs = guarded('rebase', lambda: apply(rb, case, th)); rhs = guarded('rebase', lambda: apply(a, case, th))
+        lhs = guarded('rebase', lambda: apply(rb, case, th, stream=True)); rhs = guarded('rebase', lambda: apply(a, case, th, stream=True))       # two bases: only a stream means the same on both sides
         if lhs is not None and rhs is not None:
             d = differ(lhs, rhs, scale)
             rec.check(not d, 'rebase', tg, f'a copy re-based to {other} through the basis setter acts differently from the original: {d[:4]}')
@@ -359,6 +409,64 @@ def run_case(case, rec):
             rec.check(sl.X[0] == 0.555, 'set-item-X', 'set-to-slice', 'X written on the set not visible in an earlier slice')
         def setX(): rs3.X = np.array([0.1, 0.2, 0.3]); return True
         if guarded('set-item-X', setX): rec.check(rs3[1].X == 0.2 and [i.X for i in rs3] == [0.1, 0.2, 0.3], 'set-item-X', 'setter-to-items', 'set.X = array not visible in the items')
+    # ---- second coverage round: boundary conversions, direct -=, None operands, backwards(X=), refused basis setters, ReactionSystem.X, feed kinds
+    if case.get('bx'):
+        if abs(a.X + b.X - 1) < 1e-12: rec.hit('X:sum-to-one')
+        if a.X == b.X: rec.hit('X:equal')
+    if case.get('sparse'): rec.hit('feed:sparse')
+    if case.get('feed_kind'): rec.hit('feed:' + {'nd2': 'nd'}.get(case['feed_kind'], case['feed_kind']))
+    if a.X > bb.X > 0:
+        # a -= b against a - b (the binary form is the reference; both must also convert X_a - X_b)
+        sbb = snap(bb)
+        m1 = guarded('sub', lambda: a - bb)
+        ip = a.copy(); r1 = guarded('inplace', lambda: ip.__isub__(bb))
+        if m1 is not None and r1 is not None:
+            rec.hit('isub-direct')
+            rec.check(r1 is ip, 'inplace', f'isub-direct/identity/{tg}', '-= returned another object')
+            rec.check(same_snap(snap(bb), sbb), 'operands-unchanged', f'isub-direct/b/{tg}', 'a -= b / a - b changed b')
+            rec.check(abs(ip.X - m1.X) <= 4e-16 * max(abs(m1.X), 1e-300) and abs(m1.X - (a.X - bb.X)) <= 4e-16, 'inplace', f'isub-direct/X/{tg}', f'(a -= b).X = {ip.X!r}, (a - b).X = {m1.X!r}, X_a - X_b = {a.X - bb.X!r}')
+            lhs = guarded('inplace', lambda: apply(ip, case, th)); rhs = guarded('inplace', lambda: apply(m1, case, th))
+            if lhs is not None and rhs is not None:
+                d = differ(lhs, rhs, scale)
+                rec.check(not d, 'inplace', f'isub-direct/{tg}', f'(a -= b) acts differently from a - b: {d[:4]}')
+    for nm, fn in (('add-none', lambda: a + None), ('sub-none', lambda: a - None)):
+        sa8 = snap(a); r0 = guarded('new-object', fn)
+        if r0 is not None: fresh(nm, r0, (a,)); unchanged(nm, (a,), (sa8,)); rec.check(same_snap(snap(r0), sa8), 'new-object', f'{nm}/value/{tg}', f'{nm} is not a copy of a')
+    for nm, fn in (('iadd-none', lambda x: x.__iadd__(None)), ('isub-zero', lambda x: x.__isub__(0))):
+        ip = a.copy(); sip = snap(ip); r0 = guarded('inplace', lambda: fn(ip))
+        if r0 is not None: rec.check(r0 is ip and same_snap(snap(ip), sip), 'inplace', f'{nm}/{tg}', f'{nm} did not return the unchanged left operand')
+    if prods:
+        # reversing with a new conversion: a new reaction with that conversion, the operand keeps its own
+        newr = prods[-1]; sa9 = snap(a)
+        rX = guarded('backwards', lambda: a.backwards(newr, X=0.37)); r_ = guarded('backwards', lambda: a.backwards(newr))
+        if rX is not None and r_ is not None:
+            rec.hit('backwards:X')
+            fresh('backwards-X', rX, (a,)); unchanged('backwards-X', (a,), (sa9,))
+            rec.check(rX.X == 0.37 and np.array_equal(snap(rX)[0], snap(r_)[0]) and snap(rX)[2] == snap(r_)[2], 'backwards', f'X/{tg}',
+                      f'backwards({newr}, X=0.37): X={rX.X!r}; same stoichiometry and reactant as backwards({newr}): {np.array_equal(snap(rX)[0], snap(r_)[0])}')
+    # the basis of a set / of an item cannot be set (documented TypeError): counted; if it is accepted the set and its item must still agree
+    rs4 = guarded('rebase', lambda: tmo.ParallelReaction([a.copy(), bb.copy()]))
+    if rs4 is not None:
+        for nm, tgt in (('set', rs4), ('item', rs4[0])):
+            try:
+                tgt.basis = other
+            except TypeError:
+                rec.refuse(f'basis setter of a reaction {nm} refused (TypeError, documented)'); rec.hit('basis-setter:set-refused')
+            except Exception as e:
+                rec.exception('rebase', e, what=f'basis setter of a reaction {nm} raised {type(e).__name__}: {e}')
+            else:
+                rec.check(rs4._basis == rs4[0]._basis == other, 'rebase', f'{nm}-setter-accepted/{tg}', f'basis setter of a reaction {nm} returned normally but set / item report {rs4._basis} / {rs4[0]._basis}')
+    # ReactionSystem.X <-> its parts
+    rsys = guarded('set-item-X', lambda: tmo.ReactionSystem(a.copy(), tmo.ParallelReaction([bb.copy(), cc.copy()]), tmo.SeriesReaction([bb.copy(), cc.copy()])))
+    if rsys is not None:
+        def setsys(): rsys.X = [0.05, [0.06, 0.07], np.array([0.08, 0.09])]; return True
+        if guarded('set-item-X', setsys):
+            rec.hit('system-X')
+            got = [rsys[0].X, list(rsys[1].X), list(rsys[2].X), rsys[1][0].X, rsys[2][1].X]
+            rec.check(got == [0.05, [0.06, 0.07], [0.08, 0.09], 0.06, 0.09], 'set-item-X', 'system-to-parts', f'ReactionSystem.X = [...] not visible in the parts / their items: {got}')
+            rsys[1][1].X = 0.011; rsys[0].X = 0.012; rsys[2].X[0] = 0.013
+            got = [rsys.X[0], list(rsys.X[1]), list(rsys.X[2])]
+            rec.check(got == [0.012, [0.06, 0.011], [0.013, 0.09]], 'set-item-X', 'parts-to-system', f'X written on the parts / items not visible in ReactionSystem.X: {got}')
     if all(d['X'] > 0 and len(d['st']) >= 3 for d in case['rx'][:2]): rec.mark_nontrivial(case_hash(case))
 
 
